@@ -13,8 +13,8 @@ else
   rm -f lean/Gws/Generated/Facts.lean.tmp
 fi
 (cd tools/gotrans && go build -o ../../.build/gotrans .)
-.build/gotrans -repo "${VERIF_REPO:-/repo}" -lean lean/Gws/Generated/Trans.lean.tmp -deque lean/Gws/Generated/TransDeque.lean.tmp
-for g in Trans TransDeque; do
+.build/gotrans -repo "${VERIF_REPO:-/repo}" -lean lean/Gws/Generated/Trans.lean.tmp -deque lean/Gws/Generated/TransDeque.lean.tmp -fw lean/Gws/Generated/TransFW.lean.tmp
+for g in Trans TransDeque TransFW; do
   if ! cmp -s lean/Gws/Generated/$g.lean.tmp lean/Gws/Generated/$g.lean; then
     mv lean/Gws/Generated/$g.lean.tmp lean/Gws/Generated/$g.lean
   else
